@@ -31,17 +31,32 @@ NSDECL = 'xmlns:t="urn:T" xmlns:p="urn:P" xmlns:q="urn:P"'
 
 
 def schema_xsd(nf, kind, level, typ, loc, sel):
+    # sel: "child" (s/k), "desc" (.//k), "xdn" (XSD 1.1: the paths are written WITHOUT prefixes and the schema
+    # element carries xpathDefaultNamespace="##targetNamespace", inherited by every selector and field)
+    px = "" if sel == "xdn" else "t:"
+
     def fields():
         if loc in ("attr", "alt"):
             return "".join(f'<xs:field xpath="@a{i}"/>' for i in range(1, nf + 1))
-        return "".join(f'<xs:field xpath="t:c{i}"/>' for i in range(1, nf + 1))
+        return "".join(f'<xs:field xpath="{px}c{i}"/>' for i in range(1, nf + 1))
 
     def selector(name):
         if level == "inner":
-            return f"t:{name}"
-        return f".//t:{name}" if sel == "desc" else f"t:s/t:{name}"
+            return f"{px}{name}"
+        return f".//{px}{name}" if sel == "desc" else f"{px}s/{px}{name}"
     cons = (f'<xs:{kind} name="K"><xs:selector xpath="{selector("k")}"/>{fields()}</xs:{kind}>'
             f'<xs:keyref name="R" refer="t:K"><xs:selector xpath="{selector("f")}"/>{fields()}</xs:keyref>')
+    cons_s = cons_r = ""
+    if level == "inner":
+        cons_s = cons
+    elif level == "outer":
+        cons_r = cons
+    else:       # cross: the key / unique on the scope element s, the key reference on the root r
+        level = "inner"
+        cons_s = f'<xs:{kind} name="K"><xs:selector xpath="{selector("k")}"/>{fields()}</xs:{kind}>'
+        level = "cross"
+        cons_r = (f'<xs:keyref name="R" refer="t:K"><xs:selector xpath="{".//t:f" if sel == "desc" else px + "s/" + px + "f"}"/>'
+                  f'{fields()}</xs:keyref>')
     rowdecl = '<xs:element name="k" type="t:row"/><xs:element name="f" type="t:row"/>'
     extra = ""
     if loc == "alt":
@@ -59,16 +74,17 @@ def schema_xsd(nf, kind, level, typ, loc, sel):
         row = "<xs:sequence>" + "".join(
             f'<xs:element name="c{i}" type="xs:{typ}" minOccurs="0"/>' for i in range(1, nf + 1)) \
             + "</xs:sequence>"
+    xdn = ' xpathDefaultNamespace="##targetNamespace"' if sel == "xdn" else ""
     return (f'<xs:schema xmlns:xs="{cm.XS}" targetNamespace="urn:T" {NSDECL} '
-            f'elementFormDefault="qualified">'
+            f'elementFormDefault="qualified"{xdn}>'
             f'<xs:element name="r"><xs:complexType><xs:sequence>'
             f'<xs:element name="s" minOccurs="0" maxOccurs="unbounded"><xs:complexType>'
             f'<xs:choice minOccurs="0" maxOccurs="unbounded">'
             f'{rowdecl}'
             f'<xs:element name="i" type="t:idrow"/><xs:element name="p" type="t:refrow"/>'
             f'<xs:element name="j" type="xs:ID"/><xs:element name="q" type="t:refsrow"/>'
-            f'</xs:choice></xs:complexType>{cons if level == "inner" else ""}</xs:element>'
-            f'</xs:sequence></xs:complexType>{cons if level == "outer" else ""}</xs:element>'
+            f'</xs:choice></xs:complexType>{cons_s}</xs:element>'
+            f'</xs:sequence></xs:complexType>{cons_r}</xs:element>'
             f'{extra}<xs:complexType name="row">{row}</xs:complexType>'
             f'<xs:complexType name="idrow"><xs:attribute name="id" type="xs:ID"/></xs:complexType>'
             f'<xs:complexType name="refrow"><xs:attribute name="ref" type="xs:IDREF"/></xs:complexType>'
@@ -138,7 +154,7 @@ def judge(job):
     out = []
     for ver, typ, loc, sel in variants:
         if rec.get("idver"):
-            if loc == "alt":
+            if loc == "alt" or (sel == "xdn" and rec["idver"] != "1.1"):
                 continue
             ver = rec["idver"]       # the expectation of this record is the one of that XSD version
         key = (ver, rec["nf"], rec["kind"], rec["level"], typ, loc, sel)
@@ -157,14 +173,17 @@ def judge(job):
             out.append((ver, typ, loc, sel, f"raised {type(e).__name__}: {e}"[:200], xml))
             continue
         got, other = kinds_of(errors)
+        # F-C08-c: exactly what the deviation 'lastscope' of the specification predicts (cross level only)
+        fid = "F-C08-c" if (rec["level"] == "cross" and not other and got == set(rec["lastscope"])
+                            and valid == (not got)) else None
         if valid != (not want):
             out.append((ver, typ, loc, sel, f"is_valid={valid}, spec expects errors {sorted(want)}; "
-                        f"reported {sorted(got)} {other[:2]}", xml))
+                        f"reported {sorted(got)} {other[:2]}", xml, fid))
         elif valid != (not errors):
             out.append((ver, typ, loc, sel, "is_valid and iter_errors disagree", xml))
         elif got != want or other:
             out.append((ver, typ, loc, sel, f"error kinds {sorted(got)} {other[:2]}, "
-                        f"spec expects {sorted(want)}", xml))
+                        f"spec expects {sorted(want)}", xml, fid))
     return out
 
 
@@ -224,7 +243,8 @@ def validate_identity_traces(ctx, nf, kind, level, trs, tag):
 def trace_phase(ctx: Ctx, recs, thorough):
     import collections
     groups = collections.defaultdict(list)
-    pick = [r for i, r in enumerate(recs) if (thorough or i % 3 == 0) and not r.get("idver")]
+    pick = [r for i, r in enumerate(recs) if (thorough or i % 3 == 0) and not r.get("idver")
+            and r["level"] != "cross"]      # F-C08-c: the implementation's events do not follow the machine there
     jobs = [(r, "1.0" if i % 2 else "1.1", ("integer", "string", "decimal")[i % 3], "attr" if i % 4 < 2 else "elem")
             for i, r in enumerate(pick)]
     for (r, *_), tr in zip(jobs, ctx.pmap(trace_job, jobs)):
@@ -261,12 +281,14 @@ def variants_for(i, thorough):
     if thorough:
         return [(ver, typ, loc, sel) for ver in ("1.0", "1.1") for typ in types
                 for loc in ("attr", "elem") for sel in ("child", "desc")] + \
-            [("1.1", typ, "alt", sel) for typ in types if typ != "QName" for sel in ("child", "desc")]
+            [("1.1", typ, "alt", sel) for typ in types if typ != "QName" for sel in ("child", "desc")] + \
+            [("1.1", typ, loc, "xdn") for typ in types for loc in ("attr", "elem")]
     # quick: rotate through the combinations so that the whole matrix is covered across documents
     combos = [(ver, typ, loc, sel) for ver in ("1.0", "1.1") for typ in types
               for loc in ("attr", "elem") for sel in ("child", "desc")]
     alts = [("1.1", typ, "alt", sel) for typ in types if typ != "QName" for sel in ("child", "desc")]
-    return [combos[(i * 3 + j * 13) % len(combos)] for j in range(3)] + [alts[i % len(alts)]]
+    xdns = [("1.1", typ, loc, "xdn") for typ in types for loc in ("attr", "elem")]
+    return [combos[(i * 3 + j * 13) % len(combos)] for j in range(2)] + [alts[i % len(alts)], xdns[i % len(xdns)]]
 
 
 def configs(tier):
@@ -277,6 +299,9 @@ def configs(tier):
                 out.append({"NF": nf, "KeyKind": f'"{kind}"', "Level": f'"{level}"',
                             "MaxRows": 3 if (tier == "quick" or nf == 2) else 4, "MaxScopes": 2,
                             "RowKinds": '{"k", "f"}', "IdVer": '"1.0"'})
+    for kind in ("key", "unique"):      # key on the scope elements, key reference on the root (propagated tables)
+        out.append({"NF": 1, "KeyKind": f'"{kind}"', "Level": '"cross"', "MaxRows": 3 if tier == "quick" else 4,
+                    "MaxScopes": 3, "RowKinds": '{"k", "f"}', "IdVer": '"1.0"'})
     out.append({"NF": 1, "KeyKind": '"key"', "Level": '"outer"', "MaxRows": 4 if tier == "quick" else 5,
                 "MaxScopes": 2, "RowKinds": '{"i", "p"}', "IdVer": '"1.0"'})
     out.append({"NF": 1, "KeyKind": '"key"', "Level": '"inner"', "MaxRows": 3, "MaxScopes": 2,
@@ -300,12 +325,23 @@ def canonical(rec):
 def run(ctx: Ctx):
     thorough = ctx.tier == "thorough"
     cfgs = configs(ctx.tier)
+    # non-vacuity of the cross level: the implementation-shaped deviation (references resolved against the table of
+    # the last scope element only) must violate StreamingIsDeclarative
+    ref = ctx.tlc("Identity", cfg_text="SPECIFICATION Spec\nINVARIANT StreamingIsDeclarative\nCHECK_DEADLOCK FALSE\n"
+                  "CONSTANT CrossVariant <- LastScopeVariant\n",
+                  constants={"NF": 1, "KeyKind": '"key"', "Level": '"cross"', "MaxRows": 3, "MaxScopes": 3,
+                             "RowKinds": '{"k", "f"}', "IdVer": '"1.0"'},
+                  expect_violation=True, count=False, tag="cross-lastscope")
+    if "StreamingIsDeclarative" not in ref.invariant_violated:
+        raise MachineryError("the deviation 'lastscope' is not refuted: the cross level is vacuous")
     results = ctx.parallel([(lambda c=c: ctx.tlc("Identity", "Identity.cfg", constants=c, workers=4,
                                                  tag=f"{c['NF']}{c['KeyKind']}{c['Level']}".replace('"', '')))
                             for c in cfgs], width=4)
     recs = []
     for c, r in zip(cfgs, results):
-        for x in r.json_records():
+        for n_, x in enumerate(r.json_records()):
+            if not thorough and "cross" in c["Level"] and n_ % 3:
+                continue        # quick: every 3rd document of the (large) cross level
             if canonical(x):
                 if '"j"' in c["RowKinds"]:
                     x["idver"] = c["IdVer"].strip('"')
@@ -315,11 +351,12 @@ def run(ctx: Ctx):
     n = 0
     for (rec, vs), bad in zip(jobs, res):
         n += len(vs)
-        for ver, typ, loc, sel, what, xml in bad:
+        for ver, typ, loc, sel, what, xml, *fid in bad:
             ctx.report({"ver": ver, "type": typ, "loc": loc, "selector": sel, "spec": rec, "xml": xml,
                         "xsd": schema_xsd(rec["nf"], rec["kind"], rec["level"], typ, loc, sel),
                         "observed": what},
-                       f"{ver} {rec['kind']}/{rec['level']}/{typ}/{loc}/{sel}: {what}")
+                       f"{ver} {rec['kind']}/{rec['level']}/{typ}/{loc}/{sel}: {what}",
+                       finding=fid[0] if fid else None)
     trace_phase(ctx, recs, thorough)
     for rec in recs[:: max(1, len(recs) // 4)][:4]:
         ctx.sample({"constraint": rec["kind"], "level": rec["level"], "doc": rec["doc"],
@@ -334,13 +371,14 @@ def run(ctx: Ctx):
     ctx.assumptions += [
         "field values are value-space classes; the renderer gives equal values different lexical "
         "forms (1/01/+1, 1.0/1.00, true/1, same QName under two prefixes)",
-        "key references refer to a key/unique declared on the same element (no cross-level refer)"]
+        "cross level: the key / unique is declared on the scope elements, the key reference on the root; the "
+        "tables of the scope elements are propagated to the root minus conflicting key sequences"]
     ctx.extra["documents"] = len(recs)
 
 
 def replay(ctx: Ctx, case):
     rec = case["spec"]
-    for ver, typ, loc, sel, what, xml in judge((rec, [(case["ver"], case["type"], case["loc"],
-                                                      case["selector"])])):
-        ctx.report(dict(case, observed=what), what)
+    for ver, typ, loc, sel, what, xml, *fid in judge((rec, [(case["ver"], case["type"], case["loc"],
+                                                            case["selector"])])):
+        ctx.report(dict(case, observed=what), what, finding=fid[0] if fid else None)
     ctx.states = ctx.transitions = 1
